@@ -27,7 +27,7 @@ ASSUMPTIONS = [
     "values are small integers stored as floats so additive sums are exact in any order (bitwise comparison is sound)",
     "coordinates are integers, as the class documents",
 ]
-PROBES = ["observation_sparse", "observation_end", "rejected_malformed_values_all_new", "rejected_malformed_values", "coordinates_not_int64", "caller_mutates_arguments_after_add", "caller_mutates_returned_array", "integer_dtype_batch", "additive_cancels_to_zero", "dup_in_batch", "overlap_partial", "overlap_all", "overlap_unsorted_ge2", "batch_not_sorted", "additive_fresh_coordinate",
+PROBES = ["observation_sparse", "observation_end", "twin_instance_used_in_between", "rejected_malformed_values_all_new", "rejected_malformed_values", "coordinates_not_int64", "caller_mutates_arguments_after_add", "caller_mutates_returned_array", "integer_dtype_batch", "additive_cancels_to_zero", "dup_in_batch", "overlap_partial", "overlap_all", "overlap_unsorted_ge2", "batch_not_sorted", "additive_fresh_coordinate",
           "absent_read_rejected", "empty_batch", "value_dim_gt1", "negative_coordinate", "query_with_duplicates"]
 
 
@@ -229,7 +229,23 @@ def run_history_c46(ch, tr: Trace) -> None:
             return
         raise Violation("invalid_call_rejected", f"add with a value array of {rows} rows into an array of value_dim {vdim} was accepted", "malformed_values_accepted")
 
+    twin = [None]
+
+    def op_twin_noise():
+        """A second array of the same class used in between: nothing of it may show in the array under study
+        (class-level or module-level state shared between instances)."""
+        if twin[0] is None:
+            twin[0] = SparseNdArray(dim, value_dim=vdim)
+        m = ch.rng(1, 4)
+        cs = [np.array(draw_coord()) for _ in range(m)]
+        twin[0].add(cs, np.full((vdim, m), -777.5), additive=ch.flag(1, 3))
+        twin[0].get(cs[:1])
+        tr.probe("twin_instance_used_in_between")
+        tr.op("twin", "ok", m, changing=False)
+        check_all("operations on another SparseNdArray")
+
     ops = [
+        Op("twin_noise", 1, op_twin_noise),
         Op("add_malformed", 1, op_add_malformed),
         Op("add", 6, op_add, core=True),
         Op("get", 2, op_get, enabled=lambda: bool(model)),
